@@ -90,14 +90,25 @@ def spectral_names(f):
             names.add(a.arg)
     changed = True
 
-    def mentions(e):
-        for n in ast.walk(e):
-            if isinstance(n, ast.Name) and (n.id in names or n.id in SEEDS):
-                return True
-            if isinstance(n, ast.Attribute) and n.attr in ('sigma_xsec', 'sed', '_ngrid', 'wavenumberGrid',
-                                                           '_f_res', 'spectralEmissionDensity'):
-                return True
-        return False
+    def mentions(e, extra=frozenset()):
+        # the size of a spectral array (x.shape[k], x.shape, x.size, len(x)) is a number about the grid, not a value on
+        # it; a comprehension is spectral when its element is (its variables are spectral when they walk spectral data)
+        if (isinstance(e, ast.Attribute) and e.attr in ('shape', 'size', 'ndim')) or \
+                (isinstance(e, ast.Call) and isinstance(e.func, ast.Name) and e.func.id == 'len' and len(e.args) == 1):
+            return False
+        if isinstance(e, (ast.ListComp, ast.GeneratorExp, ast.SetComp, ast.DictComp)):
+            ex = set(extra)
+            for g in e.generators:
+                if mentions(g.iter, frozenset(ex)):
+                    ex |= {x.id for x in ast.walk(g.target) if isinstance(x, ast.Name)}
+            elts = [e.key, e.value] if isinstance(e, ast.DictComp) else [e.elt]
+            return any(mentions(x, frozenset(ex)) for x in elts)
+        if isinstance(e, ast.Name):
+            return e.id in names or e.id in SEEDS or e.id in extra
+        if isinstance(e, ast.Attribute) and e.attr in ('sigma_xsec', 'sed', '_ngrid', 'wavenumberGrid',
+                                                       '_f_res', 'spectralEmissionDensity'):
+            return True
+        return any(mentions(c, extra) for c in ast.iter_child_nodes(e))
     while changed:
         changed = False
         for n in walk_no_nested(f.node):
@@ -192,6 +203,10 @@ def run(ix, R):
             nsites += 1
             key = (owner(f).qualname, nm, axis)
             lic = LICENCE.get(key)
+            if lic is None and nm == 'sum' and axis in ('0', 'builtin'):
+                # the builtin sum(x) adds along the first axis: the same reduction as np.sum(x, axis=0)
+                key = (owner(f).qualname, nm, 'builtin' if axis == '0' else '0')
+                lic = LICENCE.get(key)
             used[key] = used.get(key, 0) + 1
             if lic is not None and used[key] <= lic[0]:
                 R.ok('1.local', 'EFF', f.site, '%s(axis=%s) on spectral data is licensed: %s' % (nm, axis, lic[1]),
